@@ -12,5 +12,7 @@ else
 fi
 rm -f ../../coq/Extract/SvExtract.vo ../../coq/Extract/SvExtract.glob ../../coq/Extract/SvExtract.vos ../../coq/Extract/SvExtract.vok ../../coq/Extract/.SvExtract.aux
 rm -f SvExtract.vo SvExtract.glob SvExtract.vos SvExtract.vok .SvExtract.aux
-timeout 600 ocamlfind ocamlopt -O2 -w -a svmodel.mli svmodel.ml driver.ml -o svdriver 2>/dev/null || \
-timeout 600 ocamlfind ocamlopt -w -a svmodel.mli svmodel.ml driver.ml -o svdriver
+# the binary is replaced atomically: another check may be running the old one
+timeout 600 ocamlfind ocamlopt -O2 -w -a svmodel.mli svmodel.ml driver.ml -o svdriver.new 2>/dev/null || \
+timeout 600 ocamlfind ocamlopt -w -a svmodel.mli svmodel.ml driver.ml -o svdriver.new
+mv -f svdriver.new svdriver
